@@ -292,7 +292,10 @@ class Interp:
             k = self.ev(target.slice)
             if not isinstance(c, (dict, list)):
                 raise Unsupported(target, "(subscript store on a non-container)")
-            c[k] = v
+            try:
+                c[k] = v
+            except TypeError as ex:
+                raise PyRaise("TypeError", None)
         elif isinstance(target, ast.Attribute):
             o = self.ev(target.value)
             if not isinstance(o, Obj):
@@ -478,7 +481,10 @@ class Interp:
         if isinstance(op, (ast.In, ast.NotIn)):
             if isinstance(b, Opaque):
                 raise Unsupported(node, "(membership in an opaque value)")
-            res = a in b
+            try:
+                res = a in b
+            except Exception as ex:  # e.g. an unhashable model value looked up in a dict
+                raise PyRaise(type(ex).__name__, None)
             return res if isinstance(op, ast.In) else not res
         if isinstance(a, int) and isinstance(b, int):
             if isinstance(op, ast.Lt):
